@@ -281,8 +281,10 @@ func (cx *c06ctx) genTree(depth int, leavesLeft *int) models.Query {
 	return models.Query{Property: "_or", Or: subs}
 }
 
-var selectPool = []string{"name.first", "rank.x", "name", "rank", "price", "meta.n", "meta", "meta.lbl", "n", "s", "txt", "tags", "absent", "absent.deep", "meta.absent", "flat"}
-var sortPool = []string{"rank", "name", "price", "meta.n", "n", "meta.lbl", "absent"}
+var selectPool = []string{"name.first", "rank.x", "name", "rank", "price", "meta.n", "meta", "meta.lbl", "n", "s", "txt", "tags", "absent", "absent.deep", "meta.absent", "flat",
+	// paths of three and four segments, siblings below one ancestor, and the ancestors themselves
+	"deep.a.b", "deep.a.c", "deep.x.y.z", "deep.a", "deep", "deep.a.absent", "deep.x.y"}
+var sortPool = []string{"rank", "name", "price", "meta.n", "n", "meta.lbl", "absent", "deep.a.b", "deep.x.y.z"}
 
 // c06Doc adds the sort/select playground fields to a generated document.
 func c06Doc(g *gen.G, d model.Doc, msgpackClient bool) model.Doc {
@@ -321,6 +323,20 @@ func c06Doc(g *gen.G, d model.Doc, msgpackClient bool) model.Doc {
 	}
 	if meta, ok := d["meta"].(map[string]any); ok && g.R.IntN(2) == 0 {
 		meta["lbl"] = []string{"x", "y", "z"}[g.R.IntN(3)]
+	}
+	if g.R.IntN(5) != 0 {
+		deep := map[string]any{}
+		if g.R.IntN(4) != 0 {
+			a := map[string]any{"b": float64(g.R.IntN(9))}
+			if g.R.IntN(2) == 0 {
+				a["c"] = []string{"p", "q", "r"}[g.R.IntN(3)]
+			}
+			deep["a"] = a
+		}
+		if g.R.IntN(3) != 0 {
+			deep["x"] = map[string]any{"y": map[string]any{"z": float64(g.R.IntN(40)) / 8}}
+		}
+		d["deep"] = deep
 	}
 	return d
 }
